@@ -9,7 +9,8 @@ import anyio
 
 from ..explore import E1Check
 
-ACTIONS = ("cancel", "none", "sync", "async", "sync-raise", "async-raise", "sync-base", "sync-aw")
+ACTIONS = ("cancel", "none", "sync", "async", "sync-raise", "async-raise", "sync-base", "sync-aw", "obj", "partial", "method")
+# obj / partial / method: the "given callable" need not be a function - an instance with __call__, a functools.partial, a bound method
 BODIES = ("gate-end", "stop-event", "shielded", "crash", "forever")
 
 
@@ -33,7 +34,7 @@ def valid(action: str, body: str) -> bool:
         return body in ("gate-end", "shielded", "forever", "stop-event")
     if action == "none":
         return body == "gate-end"
-    if action in ("sync", "async", "sync-aw"):
+    if action in ("sync", "async", "sync-aw", "obj", "partial", "method"):
         return body == "stop-event"
     # raising callables fall back to cancellation
     return body in ("stop-event", "shielded")
@@ -175,6 +176,19 @@ class C08(E1Check):
 
                 def ta() -> Any:  # type: ignore[misc]
                     return _stop()  # a plain callable that returns an awaitable
+            elif action in ("obj", "partial", "method"):
+                class Stopper:
+                    def __call__(self) -> None:
+                        log("action", label)
+                        stop.set()
+
+                    def stop_it(self, arg: int = 0) -> None:
+                        log("action", label)
+                        stop.set()
+
+                import functools
+
+                ta = Stopper() if action == "obj" else functools.partial(Stopper().stop_it, 1) if action == "partial" else Stopper().stop_it
             elif action == "sync-raise":
                 def ta() -> None:  # type: ignore[misc]
                     log("action", label)
